@@ -142,6 +142,22 @@ def observe(c):
             for cb in ((1e-13, 1e-30) if not single else (1e-13, )):
                 bt = (b.astype(np.complex128) * cb).astype(b.dtype)
                 steps.append((f"inv(A)@({cb:g}*b)", lambda bt=bt: Ai @ bt, inv_exact @ bt.astype(np.complex128)))
+            if name == "CG" and sc is None:
+                # the preconditioner option: Jacobi on the same matrix scaled by 1e12 (P = diag^-1 ~ 1e-12 is far from
+                # norm-preserving); the requested tolerance is owed to the TRUE residual
+                try:
+                    big = Dn * 1e12
+                    Ab = cola.PSD(cola.ops.Dense(big.astype(np.asarray(A.to_dense()).dtype)))
+                    Pj = cola.ops.Diagonal((1.0 / np.diag(big).real).astype(np.asarray(A.to_dense()).real.dtype))
+                    xb = np.asarray(cola.linalg.inv(Ab, type(alg)(tol=alg.tol, max_iters=200, P=Pj)) @ b)
+                    xe = inv_exact @ b.astype(np.complex128) / 1e12
+                    errb = float(np.max(np.abs(xb.astype(np.complex128) - xe)))
+                    if not np.isfinite(errb) or errb > rtol * float(np.max(np.abs(xe))):
+                        V("value", f"inv(1e12*A, CG(P=Jacobi))@b: max abs error {errb:.3g} > {rtol:.2g} x scale "
+                          f"{float(np.max(np.abs(xe))):.3g}", what="inv(A,CG(P))@b", **extra)
+                except Exception as e:  # noqa: BLE001
+                    V("exception", f"inv(1e12*A, CG(P=Jacobi))@b raised {type(e).__name__}: {str(e)[:140]}",
+                      what="inv(A,CG(P))@b", **extra, **common.exc_info(e))
             if direct:
                 steps += [("b@inv(A)", lambda: b @ Ai, b.astype(np.complex128) @ inv_exact),
                           ("inv(A).T.to_dense()", lambda: Ai.T.to_dense(), inv_exact.T)]
